@@ -261,4 +261,26 @@ PROPS = {
         "exhaustive": {"quick": True, "thorough": True},
         "assumptions": ["tokens are whitespace-free and do not contain the separator of their record ('=' in package-list extras)"],
     },
+    "C16": {
+        "claimed": True,
+        "technique": "TLA+ contract of the derive macro (To / Update / From on paragraphs as ordered lists, reusing the list semantics of Deb822EditP); TLC proves the round-trip laws on the contract and enumerates struct values x prior paragraphs; replayed on a struct with every field shape, on both paragraph back-ends",
+        "level_text": "spec/MCDerive.tla states what the derived conversions must do for a struct covering every shape the macro distinguishes (mandatory/optional, default/renamed key, default/custom (de)serialiser, scalar/list/enum): TLC proves From(To(x)) = x, From(Update(x, p)) = x and that foreign fields keep their place for every value and prior paragraph, and emits the expected paragraphs and the expected error for each broken paragraph; the harness derives the macro on that struct and compares to_paragraph, update_paragraph, from_paragraph and the error texts on lossy::Paragraph and lossless::Paragraph (where comments and the raw lines of foreign fields must be untouched), and that both back-ends agree.",
+        "level_note": "bounded: 2-3 values per field, 6 prior paragraphs (foreign fields, duplicates, own fields in other order), 6 broken paragraphs; the deriving structs shipped in the workspace are exercised through their documents in C20",
+        "stages": [{"kind": "tlc_replay", "name": "derive_contract", "module": "MCDerive.tla", "cfg": "MCDerive.cfg", "stage": "derive",
+                    "workers": {"quick": 4, "thorough": 8}, "timeout": {"quick": 300, "thorough": 600}}],
+        "rule": "every (struct value, prior paragraph) pair and every broken paragraph; all distinct",
+        "exhaustive": {"quick": True, "thorough": True},
+        "assumptions": [],
+    },
+    "C20": {
+        "claimed": True,
+        "technique": "TLA+ generator of typed documents from the field tables of the deriving structs (roles, mandatory fields, classifier, structural rules) with the verdict the rules demand; rendered with canonical values and replayed on every lossy typed reader/printer, compared with the lossless reader",
+        "level_text": "spec/MCTypedDocs.tla + TypedTables.tla generate, for control files, copyright files, apt Release/Sources/Packages stanzas, removal records, buildinfo (parse only), DEP-3 headers and APT sources lists: all fields present, mandatory fields only, each optional field absent, every allowed paragraph order, comments and blank runs, and the structurally invalid variants (no / two source paragraphs, a paragraph of neither kind, each mandatory field missing) with the verdict the rules give (checked by TLC against the rule predicate); the harness renders each with canonical values for the declared types and checks acceptance / rejection, print -> parse -> print stability and field-by-field equality of the printed value with the lossless reading of the input.",
+        "level_note": "tables are generated from the struct declarations (tools/gen_typed_tables.py); one canonical sample value per field; dropping the field that distinguishes a role reclassifies the paragraph and is not generated as invalid",
+        "stages": [{"kind": "tlc_replay", "name": "typed_documents", "module": "MCTypedDocs.tla", "cfg": "MCTypedDocs.cfg", "stage": "typed",
+                    "workers": {"quick": 4, "thorough": 8}, "timeout": {"quick": 300, "thorough": 600}}],
+        "rule": "every generated document (kind, role sequence, designated paragraph variant, comments, blank run); all distinct",
+        "exhaustive": {"quick": True, "thorough": True},
+        "assumptions": ["values are canonical for their declared type (as the type's own printer writes them)"],
+    },
 }
